@@ -11,13 +11,25 @@ import (
 
 // runL0 drives one generated multi-replica history. perStep is called after every action,
 // atQuiescence after every quiesce and at the end (after a final quiesce).
+// l0MinSteps, when set by a check before it calls runL0, is the least number of steps of that history
+// (consumed by runL0): C10 needs the history to reach its export point and to continue after it.
+var l0MinSteps int
+
 func runL0(c *caseCtx, cfg l0Config, maxSteps int,
 	perStep func(m *l0Machine, a l0Action, si stepInfo) error,
 	atQuiescence func(m *l0Machine) error) (*l0Machine, []l0Action) {
 	rt := c.rt
 	c.j.Header = cfg
 	m := newL0Machine(cfg)
-	n := rapid.IntRange(1, maxSteps).Draw(rt, "steps")
+	lo := 1
+	if l0MinSteps > lo {
+		lo = l0MinSteps
+		if lo > maxSteps {
+			lo = maxSteps
+		}
+	}
+	l0MinSteps = 0
+	n := rapid.IntRange(lo, maxSteps).Draw(rt, "steps")
 	var actions []l0Action
 	for i := 0; i < n; i++ {
 		a := m.gen(rt)
